@@ -178,3 +178,16 @@ Theorem c12_src_ring_step : forall k i, 0 <= k < 63 -> 0 <= i < 2 ^ k ->
   go_Deque_next (2 ^ k) (go_Deque_prev (2 ^ k) i) = i.
 Proof. exact src_ring_step. Qed.
 Print Assumptions c12_src_ring_step.
+
+(* the head of Rotate (early returns, n %= q.count, modBits) is the translated source's;
+   rotate_rest is the model's remaining element-moving part *)
+Theorem c12_src_rotate : forall (A : Type) (nilv : A) (d : @deque A) n0,
+  cap d < 2 ^ 63 -> - 2 ^ 63 <= count d < 2 ^ 63 -> - 2 ^ 63 <= n0 < 2 ^ 63 ->
+  rotate nilv d n0 =
+  match go_Deque_Rotate_prefix (count d) (cap d) n0 with
+  | Lib.GoSem.Ok None => Some d
+  | Lib.GoSem.Ok (Some (n, modBits)) => rotate_rest nilv d n modBits
+  | Lib.GoSem.Panic | Lib.GoSem.OutOfFuel => None
+  end.
+Proof. exact @src_rotate. Qed.
+Print Assumptions c12_src_rotate.
